@@ -26,7 +26,7 @@ const prop = "C12"
 
 func TestMain(m *testing.M) {
 	vkit.Rec(prop).SetLevel("exploration",
-		"(1) direct Store/Load of all four record types with EVERY combination of optional fields (nonce, previous key, state, bundles, option-supplied state) under wrapper A, loaded with A / B / none; (2) every library flow that writes records (root rotation fresh/promote/reinitialise/with state, authorize, three fetch modes, token creation, node-side create/handle, node credential rotation) run on a recording storage with a wrapper; (3) transplants of every sealed field between two records of the same type. Oracle: no secret of the case (fresh random key material, unique timestamp) occurs as a substring of any byte string handed to Storage.Store; same wrapper => proto.Equal round trip; other/no wrapper => error; transplant => error. Non-trivial = record with >=1 optional sensitive field, flow-produced writes, transplants; distinct = (record type, field combination, wrapper variant) / flow / transplanted field.")
+		"(1) direct Store/Load of all four record types with EVERY combination of optional fields (nonce, previous key, state, bundles, option-supplied state) under wrapper A, loaded with A / B / none; (2) every library flow that writes records (root rotation fresh/promote/reinitialise/with state, authorize, three fetch modes, token creation, node-side create/handle, node credential rotation, enrolment and authentication over the wire with protocol.Dial) run on a recording storage with a wrapper; (3) transplants of every sealed field between two records of the same type. Oracle: no secret of the case (fresh random key material, unique timestamp) occurs as a substring of any byte string handed to Storage.Store; same wrapper => proto.Equal round trip; other/no wrapper => error; transplant => error. Non-trivial = record with >=1 optional sensitive field, flow-produced writes, transplants; distinct = (record type, field combination, wrapper variant) / flow / transplanted field.")
 	vkit.Main(m)
 }
 
@@ -554,6 +554,45 @@ func TestProp_Flows(t *testing.T) {
 			f.secrets = append(f.secrets, secret{"previous-encryption-private-key", a.EncPriv})
 			newCreds.Id = string(nodeenrollment.NextId)
 			must(newCreds.Store(w.Ctx, w.Store, sw), "store rotated creds")
+		}
+		// enrollment and authentication over the wire (protocol.Dial writes node
+		// credentials during the fetch and reads them for every connection)
+		// (not after a time-translated promotion: certificates carry real-time validity,
+		// the promoted root would not be valid yet for the TLS code)
+		promoted := false
+		for _, fl := range flows {
+			promoted = promoted || fl == "rotate-promote"
+		}
+		if !promoted && rapid.Bool().Draw(t, "dialFlow") {
+			flows = append(flows, "dial")
+			nodeInner, _ := vkit.NewBackend(vkit.Inmem)
+			nodeRec := vkit.NewRecStorage(nodeInner)
+			nw := nodeenrollment.WithStorageWrapper(vkit.NewAead("node-wrapper"))
+			creds, err := types.NewNodeCredentials(w.Ctx, nodeRec, nw)
+			must(err, "NewNodeCredentials (dial flow)")
+			d := &vkit.Actor{Name: "dialer", Store: nodeRec, Opts: []nodeenrollment.Option{nw}, Creds: creds}
+			vkit.FillActor(d)
+			f.addActor(d)
+			f.secrets = append(f.secrets, secret{"registration-nonce", creds.RegistrationNonce})
+			_, err = registration.AuthorizeNode(w.Ctx, w.Store, d.Request(), w.O()...)
+			must(err, "authorize (dial flow)")
+			rig := vkit.NewRig(w, vkit.RigConfig{})
+			c1, err := rig.Dial(d)
+			outs := rig.Sync()
+			for _, o := range outs {
+				if o.Conn != nil {
+					_ = o.Conn.Close()
+				}
+			}
+			if c1 != nil {
+				_ = c1.Close()
+			}
+			rig.Close()
+			must(err, "dial")
+			if !scan(t, nodeRec.Log(), f.secrets, map[string]any{"flows": flows, "side": "node storage during Dial"}) {
+				return
+			}
+			rec.Count("store_operations_scanned", int64(len(nodeRec.Log())))
 		}
 		rec.Case("flows/"+backend.String(), strings.Join(flows, ","), true, func() any {
 			return map[string]any{"backend": backend.String(), "flows": flows, "stores_scanned": len(w.Rec.Log())}
